@@ -296,6 +296,8 @@ def roundtrip_check(b, pts, update=True):
 
 # ---------------------------------------------------------------------------------- TLC
 def validate(log, scratch, tag, npmin):
+    if not log:                      # nothing was recorded (e.g. a run that built no bound): nothing to validate
+        return [], tlc.TLCResult()
     path = os.path.join(scratch, 'btrace_%s.json' % tag)
     json.dump(log, open(path, 'w'))
     cfg = path + '.cfg'
